@@ -459,3 +459,103 @@ Fixpoint finished_in (cf : cfg) (s : st) (tr : list action) : nat :=
   | [] => O
   | a :: tr' => ((if ends_now s a then 1 else 0) + finished_in cf (step cf s a) tr')%nat
   end.
+
+(* ---- the ROOT gate's BOUNDED command channel (mpsc::channel(COMMAND_QUEUE_LEN), comms.rs 109 / Gate::new)
+   and `impl Drop for Link`.
+   Every sender of a gate command uses `send(..).await`: when the 16 places are taken the sender WAITS, and
+   tokio hands a place that comes free to the waiting senders first-come first-served. So the commands inside
+   the channel followed by the commands of the waiting senders form ONE FIFO - that FIFO is [rootq] of the gate
+   model above. The bounded gate adds the marker [b_in]: how many commands at the head of [rootq] are inside the
+   channel (<= 16); the others belong to senders that wait for room. The root's recv() only sees the channel.
+     [BAct a]         an action of the gate model; if it sends a command, the command enters the channel when no
+                      sender waits and a place is free, otherwise its sender waits (Link::connect / disconnect /
+                      suspend, GateAgent::terminate, Clone / Drop for Gate all await their send)
+     [BLand]          the first waiting sender gets a place that came free
+     [BDropLink l]    `impl Drop for Link`: the connected link l is dropped (a queue link's receiver with it; the
+                      component KEEPS its direct-update target and may link again at once); the Unsubscribe is
+                      sent by a spawned task ("drop-link") that awaits `send` - it waits for room like any sender
+     [BDropLinkTry l] the variant that hands the Unsubscribe over with `try_send`: lost when there is no room
+   A send that is CANCELLED while it waits for room (the connect() future dropped then) is modelled as the
+   command taking its turn with a dead requester ([kill_sub] / [CSubDead]: by C08_dead_subscribe_is_noop it only
+   uses up a fresh slot id, which the code draws at random). *)
+Record bst := MkB { b_st : st; b_in : nat }.
+
+Inductive baction :=
+| BAct (a : action)
+| BLand
+| BDropLink (l : N)
+| BDropLinkTry (l : N).
+
+Definition qcap : nat := N.to_nat cmd_queue_len.
+
+(* no sender waits and the channel has a free place: a send (or try_send) succeeds at once *)
+Definition b_room (b : bst) : bool :=
+  Nat.eqb (b_in b) (length (rootq (b_st b))) && Nat.ltb (b_in b) qcap.
+
+(* s' = the gate after an action that may have put one more command on the FIFO *)
+Definition b_after_send (b : bst) (s' : st) : bst :=
+  if Nat.ltb (length (rootq (b_st b))) (length (rootq s')) && b_room b
+  then MkB s' (S (b_in b)) else MkB s' (b_in b).
+
+Definition bstep (cf : cfg) (b : bst) (a : baction) : bst :=
+  match a with
+  | BAct ARoot =>
+      let s := b_st b in
+      if root_term s || root_dropped s then b else
+      match rnote s with
+      | _ :: _ => MkB (step cf s ARoot) (b_in b)    (* inside notify_clones: no command is taken *)
+      | [] =>
+          match b_in b with
+          | O => b                                   (* recv() on an empty channel; what waiting senders hold is not in it *)
+          | S k => MkB (step cf s ARoot) k
+          end
+      end
+  | BAct a' => b_after_send b (step cf (b_st b) a')
+  | BLand =>
+      if Nat.ltb (b_in b) (length (rootq (b_st b))) && Nat.ltb (b_in b) qcap
+      then MkB (b_st b) (S (b_in b)) else b
+  | BDropLink l => b_after_send b (step cf (b_st b) (ASendUnsub l))
+  | BDropLinkTry l =>
+      let s' := step cf (b_st b) (ASendUnsub l) in
+      if b_room b then b_after_send b s'
+      else MkB (set_rootq (rootq (b_st b)) s') (b_in b)     (* Err(Full) is ignored: the command is gone *)
+  end.
+
+Definition binit : bst := MkB init O.
+Definition brun_from (cf : cfg) (b : bst) (tr : list baction) : bst := fold_left (bstep cf) tr b.
+Definition brun (cf : cfg) (tr : list baction) : bst := brun_from cf binit tr.
+
+Definition is_try (a : baction) : bool := match a with BDropLinkTry _ => true | _ => false end.
+(* a schedule of the code as it is: every Unsubscribe of a dropped link waits *)
+Definition waits_only (tr : list baction) : bool := forallb (fun a => negb (is_try a)) tr.
+
+(* the action of the unbounded gate a bounded action stands for *)
+Definition b_abs (a : baction) : list action :=
+  match a with
+  | BAct a' => [a']
+  | BLand => []
+  | BDropLink l => [ASendUnsub l]
+  | BDropLinkTry l => [ASendUnsub l]
+  end.
+
+(* commands of senders that still wait for room *)
+Definition b_waiting (b : bst) : list cmd := skipn (b_in b) (rootq (b_st b)).
+Definition b_channel (b : bst) : list cmd := firstn (b_in b) (rootq (b_st b)).
+
+(* the root works off everything: (a waiting sender lands, the root handles one command) n times *)
+Fixpoint b_drain (cf : cfg) (n : nat) (b : bst) : bst :=
+  match n with
+  | O => b
+  | S n' => b_drain cf n' (bstep cf (bstep cf b BLand) (BAct ARoot))
+  end.
+
+(* the witness schedules: direct link 1 connects and gets update 0; while the unit is busy elsewhere 16 other
+   requesters ask for a connection and give up (16 commands in the channel); link 1 is dropped, its component
+   links again with the same target; the unit gets back to its gate; update 1 *)
+Definition b_fill : list baction :=
+  concat (repeat [BAct (ASendSub 3); BAct (AAbandon 3)] 16).
+Definition b_relink_schedule (drop : baction) : list baction :=
+  [BAct (ASendSub 1); BAct ARoot; BAct (APick 1); BAct (ABegin 0); BAct (ADeliver 0); BAct (AEnd 0)]
+  ++ b_fill ++ [drop; BAct (ASendSub 1)]
+  ++ concat (repeat [BLand; BAct ARoot] 20)
+  ++ [BAct (APick 1); BAct (ABegin 0); BAct (ADeliver 0); BAct (ADeliver 0); BAct (AEnd 0)].
